@@ -36,17 +36,8 @@ mod proofs {
     /// against the documented vu64 pattern, that nothing else changed, and that the crate's
     /// reader returns the value and stops exactly behind it.
     fn codec_roundtrip(kind: u8, v: u64) {
-        let img = sym_image::<CW>();
-        let before: [u8; CW] = {
-            let mut b = [0u8; CW];
-            let mut i = 0;
-            while i < CW {
-                b[i] = img[i];
-                i += 1;
-            }
-            b
-        };
-        let mut f = verif::val::var_file(BufFile::from_image(img, CW as u64));
+        let before: [u8; CW] = kani::any();
+        let mut f = verif::val::var_file(BufFile::from_image(before.to_vec(), CW as u64));
         ok(f.seek_from_start(ValuePieceOffset::new(CP)));
         let stored: u64 = match kind {
             0 => {
@@ -70,15 +61,14 @@ mod proofs {
         let pos: ValuePieceOffset = ok(f.seek_position());
         assert!(pos.as_value() == CP + sl as u64, "field width differs from the documented encoding");
         {
+            // one universally quantified byte position instead of a loop over the image
             let b = f.verif_buf();
-            let mut i = 0;
-            while i < CW {
-                if i >= CP as usize && i < CP as usize + sl {
-                    assert!(b.data[i] == sb[i - CP as usize], "field bytes differ from the documented encoding");
-                } else {
-                    assert!(b.data[i] == before[i], "codec touched a byte outside its field");
-                }
-                i += 1;
+            let i: usize = kani::any();
+            kani::assume(i < CW);
+            if i >= CP as usize && i < CP as usize + sl {
+                assert!(b.data[i] == sb[i - CP as usize], "field bytes differ from the documented encoding");
+            } else {
+                assert!(b.data[i] == before[i], "codec touched a byte outside its field");
             }
             assert!(b.end == CW as u64);
         }
@@ -101,56 +91,48 @@ mod proofs {
         core::mem::forget(f);
     }
     #[kani::proof]
-    #[kani::unwind(42)]
+    #[kani::unwind(11)]
     fn b_codec_offset() {
         let v: u64 = kani::any();
         kani::assume(v % 8 == 0);
         codec_roundtrip(0, v);
     }
     #[kani::proof]
-    #[kani::unwind(42)]
+    #[kani::unwind(11)]
     fn b_codec_size() {
         let v: u32 = kani::any();
         kani::assume(v % 8 == 0);
         codec_roundtrip(1, v as u64);
     }
     #[kani::proof]
-    #[kani::unwind(42)]
+    #[kani::unwind(11)]
     fn b_codec_keylen() {
         let v: u32 = kani::any();
         codec_roundtrip(2, v as u64);
     }
     #[kani::proof]
-    #[kani::unwind(42)]
+    #[kani::unwind(11)]
     fn b_codec_vallen() {
         let v: u32 = kani::any();
         codec_roundtrip(3, v as u64);
     }
     #[kani::proof]
-    #[kani::unwind(42)]
+    #[kani::unwind(11)]
     fn b_codec_free_link() {
         let v: u64 = kani::any();
-        let img = sym_image::<CW>();
-        let mut before = [0u8; CW];
-        let mut i = 0;
-        while i < CW {
-            before[i] = img[i];
-            i += 1;
-        }
-        let mut f = verif::val::var_file(BufFile::from_image(img, CW as u64));
+        let before: [u8; CW] = kani::any();
+        let mut f = verif::val::var_file(BufFile::from_image(before.to_vec(), CW as u64));
         ok(f.seek_from_start(ValuePieceOffset::new(CP)));
         ok(f.write_free_piece_offset(ValuePieceOffset::new(v)));
         let le = v.to_le_bytes();
         {
             let b = f.verif_buf();
-            let mut i = 0;
-            while i < CW {
-                if i >= CP as usize && i < CP as usize + 8 {
-                    assert!(b.data[i] == le[i - CP as usize], "free-list link is not 8 bytes little endian");
-                } else {
-                    assert!(b.data[i] == before[i]);
-                }
-                i += 1;
+            let i: usize = kani::any();
+            kani::assume(i < CW);
+            if i >= CP as usize && i < CP as usize + 8 {
+                assert!(b.data[i] == le[i - CP as usize], "free-list link is not 8 bytes little endian");
+            } else {
+                assert!(b.data[i] == before[i], "link codec touched a byte outside its field");
             }
         }
         ok(f.seek_from_start(ValuePieceOffset::new(CP)));
@@ -161,33 +143,25 @@ mod proofs {
 
     /// write_zero_to_offset: zeros exactly [pos, target), never beyond, no-op when target <= pos
     #[kani::proof]
-    #[kani::unwind(42)]
+    #[kani::unwind(40)]
     fn b_zero_to_offset() {
-        let img = sym_image::<CW>();
-        let mut before = [0u8; CW];
-        let mut i = 0;
-        while i < CW {
-            before[i] = img[i];
-            i += 1;
-        }
+        let before: [u8; CW] = kani::any();
         let end: u64 = kani::any();
         kani::assume(end <= 32);
-        let mut f = verif::val::var_file(BufFile::from_image(img, end));
+        let mut f = verif::val::var_file(BufFile::from_image(before.to_vec(), end));
         let p: u64 = kani::any();
         let t: u64 = kani::any();
         kani::assume(p <= end && t <= 36);
         ok(f.seek_from_start(ValuePieceOffset::new(p)));
         ok(f.write_zero_to_offset(ValuePieceOffset::new(t)));
         let b = f.verif_buf();
-        let mut i = 0;
-        while i < CW {
-            let iu = i as u64;
-            if iu >= p && iu < t {
-                assert!(b.data[i] == 0, "padding byte not zero");
-            } else if iu < end {
-                assert!(b.data[i] == before[i], "zero fill touched a byte outside [pos, target)");
-            }
-            i += 1;
+        let i: usize = kani::any();
+        kani::assume(i < CW);
+        let iu = i as u64;
+        if iu >= p && iu < t {
+            assert!(b.data[i] == 0, "padding byte not zero");
+        } else if iu < end {
+            assert!(b.data[i] == before[i], "zero fill touched a byte outside [pos, target)");
         }
         assert!(b.pos == if t > p { t } else { p });
         assert!(b.end == if t > end { t } else { end });
